@@ -71,6 +71,8 @@ type holdKey struct {
 
 type scn struct {
 	c          *vf.Case
+	noCopy     bool // nack.DisableCopy()
+	failEvery  int // > 0: the next writer returns an error for every failEvery-th retransmission of a stream
 	r          *vf.Rand
 	clk        clock
 	size       int64
@@ -169,6 +171,18 @@ func (sc *scn) send(in *inst, o *orig, wk *worker) {
 	if o.pl != nil {
 		payload = wk.buf[:len(o.pl)]
 		copy(payload, o.pl)
+	}
+	if sc.noCopy {
+		// DisableCopy: the responder keeps the caller's header and payload (documented); the
+		// caller hands over fresh objects and never touches them again
+		h := o.hdr.Clone()
+		in.beginSend(&sc.clk, o)
+		_, err := in.w.Write(&h, append([]byte(nil), o.pl...), interceptor.Attributes{origKey: o})
+		in.endSend(&sc.clk, o, err == nil)
+		if err != nil {
+			atomic.AddInt64(&sc.ev.writeErrs, 1)
+		}
+		return
 	}
 	in.beginSend(&sc.clk, o)
 	_, err := in.w.Write(&wk.hdr, payload, interceptor.Attributes{origKey: o})
@@ -329,6 +343,9 @@ func (sc *scn) bind(ssrc uint32, rtx bool) *inst {
 		in.rtxPT = uint8(r.Range(1, 127))
 		in.info.SSRCRetransmission = in.rtxSSRC
 		in.info.PayloadTypeRetransmission = in.rtxPT
+		if sc.noCopy {
+			in.rtx = false // negotiated, but with DisableCopy the stored packet is the original
+		}
 	} else if r.Chance(0.3) {
 		// half-negotiated RTX (an RTX SSRC without an RTX payload type, or the reverse) is no
 		// RTX: retransmissions keep the original form
@@ -454,9 +471,23 @@ func run(c *vf.Case) {
 			sc.small = true
 		}
 	}
+	if r.Chance(0.08) {
+		// the documented opt-out of copying: retransmissions keep the original form even when
+		// RTX is negotiated (the no-copy factory never builds the RFC 4588 form)
+		sc.noCopy = true
+		c.Add("cases_with_disable_copy", 1)
+	}
+	if r.Chance(0.25) {
+		sc.failEvery = r.Pick(1, 2, 3, 5)
+		c.Add("cases_whose_next_writer_fails_some_retransmissions", 1)
+	}
 	c.Bubble(func() {
 		defer sc.release()
-		f, err := nack.NewResponderInterceptor(nack.ResponderSize(uint16(sc.size)), nack.ResponderLog(quietLogger()))
+		ropts := []nack.ResponderOption{nack.ResponderSize(uint16(sc.size)), nack.ResponderLog(quietLogger())}
+		if sc.noCopy {
+			ropts = append(ropts, nack.DisableCopy())
+		}
+		f, err := nack.NewResponderInterceptor(ropts...)
 		if err != nil {
 			c.Inconclusive("harness: NewResponderInterceptor: %v", err)
 			return
